@@ -327,3 +327,26 @@ func near(a, b, tol float64) bool {
 	}
 	return d <= tol
 }
+
+// windowBits / windowBytes hand an input over the way callers that cut samples out of one long capture do: as a window of
+// a larger buffer, starting at an arbitrary (not word-aligned) offset and with spare capacity behind it. The content is
+// unchanged; where it lives is a function of salt.
+func windowBits(bits []bool, salt uint64) []bool {
+	off := int(salt % 16)
+	buf := make([]bool, off+len(bits)+int(salt>>4%9))
+	for i := range buf {
+		buf[i] = i%3 == 0
+	}
+	copy(buf[off:], bits)
+	return buf[off : off+len(bits)]
+}
+
+func windowBytes(data []byte, salt uint64) []byte {
+	off := int(salt % 16)
+	buf := make([]byte, off+len(data)+int(salt>>4%9))
+	for i := range buf {
+		buf[i] = byte(i * 7)
+	}
+	copy(buf[off:], data)
+	return buf[off : off+len(data)]
+}
